@@ -423,7 +423,7 @@ theorem table_ranked_all (d : Dims) (k : OpKind) (hv : k.valid d = true) :
     intro k hk
     have := bal_bracket (d := d) (H := [(mgr, .excl)]) hm (below_mono hb1 (by omega))
       (mid := [termB] ++ (List.range d.nl).map levelB ++ [joinB ws]
-        ++ (if 2 ≤ d.nl then [locked (level 0) [locked (level (d.nl - 1)) []]] else [])
+        ++ (if 2 ≤ d.nl then [locked (level 0) [levelB (d.nl - 1)]] else [])
         ++ (List.range d.nl).map (fun j => locked (level j) [])
         ++ [joinB ws2] ++ [gcCallPrepared d]
         ++ [termB] ++ (List.range d.nl).reverse.map levelB) ?_ k hk
@@ -440,7 +440,7 @@ theorem table_ranked_all (d : Dims) (k : OpKind) (hv : k.valid d = true) :
           simp only [List.mem_singleton] at hb; subst hb
           apply bal_locked hmf (by simpa [rank] using hf) (by intro h; cases h) (by intro h; cases h)
           intro b hb; simp only [List.mem_singleton] at hb; subst hb
-          exact bal_levelPeek (hasMgr_cons _ hmf)
+          exact bal_level (by omega) (hasMgr_cons _ hmf)
             (below_cons (by simp [rank]; omega) (below_mono hf (by omega)))
         · cases hb
       · obtain ⟨j, _, rfl⟩ := hb; exact bal_levelPeek hmf (below_mono hf (by omega))
